@@ -347,7 +347,9 @@ def m_deque(R, args, kw, node):
     counted = True if hint is None else hint.counted
     if not args:
         if hint is None:
-            raise Unsupported("deque() without declared local type")
+            from .evalx import PENDING
+
+            return R.alloc(T.List(PENDING, py="deque"), None)
         r = R.new_list(hint.elem, [], py="deque", counted=hint.counted)
         if hint.counted:
             R.heap[r.z].ghost = {"cnt": z3.K(hint.elem.sort(), z3.IntVal(0))}
